@@ -12,10 +12,8 @@
 //   split     words over a character alphabet x every encoding x every split offset x every maxChars (streamed decode),
 //             every proper prefix through TranscodeFromStr, whole words through TranscodeToStr
 //   witness   one minimal case per entry of KNOWN_DEFECTS, always reported strictly
-#include "c05_ref.hpp"
+#include "c05_enc.hpp"
 #include <xercesc/util/XMLUni.hpp>
-using namespace xv;
-using namespace c05;
 
 // =================================================================================================
 // generic comparison of one transcodeFrom call with a reference parse
@@ -222,135 +220,6 @@ static void setup_utf8dec(const Args& a, Runner& R) {
     R.describe = [](uint64_t i) { return "{\"len\":" + std::to_string(g_u8cases[i].len) + ",\"prefix\":" + std::to_string(g_u8cases[i].prefix) + "}"; };
     R.extra_json = "\"bounds\":" + jstr("utf8dec mode=" + mode);
 }
-
-// =================================================================================================
-// encodings under test
-// =================================================================================================
-enum RefKind { R_UTF8, R_UTF16LE, R_UTF16BE, R_UCS4LE, R_UCS4BE, R_ICU };
-struct Enc {
-    const char* xname;     // name handed to makeNewTranscoderFor
-    RefKind kind;
-    const char* icuname;   // reference converter for R_ICU
-    bool intrinsic;        // implemented by Xerces itself (stateless contract: call-level checks apply)
-    bool all_repr;         // every scalar value is representable
-    int maxlen;            // longest byte sequence of one character
-};
-static const Enc ENCS[] = {
-    {"UTF-8", R_UTF8, nullptr, true, true, 4},
-    {"UTF-16LE", R_UTF16LE, nullptr, true, true, 4},
-    {"UTF-16BE", R_UTF16BE, nullptr, true, true, 4},
-    {"UCS-4LE", R_UCS4LE, nullptr, true, true, 4},
-    {"UCS-4BE", R_UCS4BE, nullptr, true, true, 4},
-    {"ISO-8859-1", R_ICU, "ISO-8859-1", true, false, 1},
-    {"US-ASCII", R_ICU, "US-ASCII", true, false, 1},
-    {"WINDOWS-1252", R_ICU, "windows-1252", true, false, 1},
-    {"IBM037", R_ICU, "ibm-37", true, false, 1},
-    {"IBM1047", R_ICU, "ibm-1047", true, false, 1},
-    {"IBM1140", R_ICU, "ibm-1140", true, false, 1},
-    // provided by the ICU transcoding service (Xerces' ICUTranscoder wrapper is what is under test)
-    {"ISO-8859-2", R_ICU, "ISO-8859-2", false, false, 1},
-    {"ISO-8859-15", R_ICU, "ISO-8859-15", false, false, 1},
-    {"KOI8-R", R_ICU, "KOI8-R", false, false, 1},
-    {"windows-1251", R_ICU, "windows-1251", false, false, 1},
-    {"IBM500", R_ICU, "ibm-500", false, false, 1},
-    {"Shift_JIS", R_ICU, "Shift_JIS", false, false, 2},
-    {"EUC-JP", R_ICU, "EUC-JP", false, false, 3},
-    {"GB2312", R_ICU, "GB2312", false, false, 2},
-    {"Big5", R_ICU, "Big5", false, false, 2},
-    {"EUC-KR", R_ICU, "EUC-KR", false, false, 2},
-    {"GB18030", R_ICU, "GB18030", false, true, 4},
-};
-static const int NENC = sizeof(ENCS) / sizeof(ENCS[0]);
-static IcuRef* g_icu[NENC];   // opened before fork, one per encoding (R_ICU only)
-static IcuRef* g_icusub[NENC];  // same converter with ICU's default (substituting) callbacks, for the known-defect predicate only
-static int enc_index(const std::string& n) { for (int i = 0; i < NENC; i++) if (n == ENCS[i].xname) return i; return -1; }
-static std::vector<int> g_encsel;
-static void select_encs(const Args& a) {
-    std::string sel = a.str("encs", "all");
-    for (int i = 0; i < NENC; i++) {
-        bool take = sel == "all" || (sel == "intrinsic" && ENCS[i].intrinsic) || (sel == "icu" && !ENCS[i].intrinsic) || ("," + sel + ",").find(std::string(",") + ENCS[i].xname + ",") != std::string::npos;
-        if (!take) continue;
-        if (ENCS[i].kind == R_ICU) {
-            g_icu[i] = new IcuRef();
-            g_icusub[i] = new IcuRef(); g_icusub[i]->open(ENCS[i].icuname, true);
-            if (!g_icu[i]->open(ENCS[i].icuname)) { fprintf(stderr, "reference converter %s unavailable\n", ENCS[i].icuname); exit(2); }
-        }
-        XMLTranscoder* t = make_tc(ENCS[i].xname);
-        if (!t) { fprintf(stderr, "Xerces cannot make a transcoder for %s\n", ENCS[i].xname); exit(2); }
-        delete t;
-        g_encsel.push_back(i);
-    }
-}
-
-// reference encoding of one scalar value; false = not representable
-static bool ref_encode(int ei, uint32_t cp, Bytes& out) {
-    switch (ENCS[ei].kind) {
-    case R_UTF8: out = ref_utf8_encode(cp); return true;
-    case R_UTF16LE: out = ref_utf16_encode(cp, false); return true;
-    case R_UTF16BE: out = ref_utf16_encode(cp, true); return true;
-    case R_UCS4LE: out = ref_utf32_encode(cp, false); return true;
-    case R_UCS4BE: out = ref_utf32_encode(cp, true); return true;
-    default: return g_icu[ei]->encode_cp(cp, out);
-    }
-}
-static bool ref_encode_units(int ei, const U16& u, Bytes& out) {  // u well-formed
-    out.clear();
-    for (size_t i = 0; i < u.size(); i++) {
-        uint32_t cp = u[i];
-        if (cp >= 0xD800 && cp <= 0xDBFF && i + 1 < u.size()) { cp = 0x10000 + ((cp - 0xD800) << 10) + (u[i + 1] - 0xDC00); i++; }
-        Bytes b;
-        if (!ref_encode(ei, cp, b)) return false;
-        out += b;
-    }
-    return true;
-}
-
-// generic reference parse of a byte string in encoding ei
-static RefParse ref_parse(int ei, const uint8_t* s, size_t n) {
-    const Enc& E = ENCS[ei];
-    RefParse r;
-    if (E.kind == R_UTF8) return ref_utf8_parse(s, n);
-    if (E.kind == R_UTF16LE || E.kind == R_UTF16BE) {
-        // XMLCh *is* the UTF-16 code unit: the transcoder level is a unit copy (pairing is checked by the scanner, see c05_docs)
-        size_t i = 0;
-        for (; i + 2 <= n; i += 2) {
-            uint32_t u = E.kind == R_UTF16LE ? (s[i] | s[i + 1] << 8) : (s[i] << 8 | s[i + 1]);
-            r.items.push_back(RefItem{u, 2, 1});
-        }
-        if (i < n) { r.term = RefParse::INCOMPLETE; r.term_pos = i; r.announced = 2; r.avail = n - i; }
-        else { r.term = RefParse::END; r.term_pos = n; }
-        return r;
-    }
-    if (E.kind == R_UCS4LE || E.kind == R_UCS4BE) {
-        size_t i = 0;
-        for (; i + 4 <= n; i += 4) {
-            uint32_t v = E.kind == R_UCS4LE ? ((uint32_t)s[i] | (uint32_t)s[i + 1] << 8 | (uint32_t)s[i + 2] << 16 | (uint32_t)s[i + 3] << 24)
-                                            : ((uint32_t)s[i] << 24 | (uint32_t)s[i + 1] << 16 | (uint32_t)s[i + 2] << 8 | (uint32_t)s[i + 3]);
-            if (!is_scalar(v)) { r.term = RefParse::ILLFORMED; r.term_pos = i; r.announced = 4; r.avail = n - i; return r; }
-            r.items.push_back(RefItem{v, 4, (uint8_t)(v >= 0x10000 ? 2 : 1)});
-        }
-        if (i < n) { r.term = RefParse::INCOMPLETE; r.term_pos = i; r.announced = 4; r.avail = n - i; }
-        else { r.term = RefParse::END; r.term_pos = n; }
-        return r;
-    }
-    UConverter* cnv = g_icu[ei]->cnv;
-    ucnv_resetToUnicode(cnv);
-    const char* p = (const char*)s; const char* lim = p + n;
-    while (p < lim) {
-        const char* q = p;
-        UErrorCode e = U_ZERO_ERROR;
-        UChar32 c = ucnv_getNextUChar(cnv, &q, lim, &e);
-        if (e == U_INDEX_OUTOFBOUNDS_ERROR) break;
-        if (e == U_TRUNCATED_CHAR_FOUND) { r.term = RefParse::INCOMPLETE; r.term_pos = p - (const char*)s; r.announced = E.maxlen; r.avail = lim - p; ucnv_resetToUnicode(cnv); return r; }
-        if (U_FAILURE(e) || c < 0 || !is_scalar((uint32_t)c)) { r.term = RefParse::ILLFORMED; r.term_pos = p - (const char*)s; r.avail = lim - p; r.announced = 0; ucnv_resetToUnicode(cnv); return r; }
-        r.items.push_back(RefItem{(uint32_t)c, (uint8_t)(q - p), (uint8_t)(c >= 0x10000 ? 2 : 1)});
-        p = q;
-    }
-    r.term = RefParse::END; r.term_pos = n;
-    return r;
-}
-
-static std::string encdesc(int ei) { return std::string(ENCS[ei].xname) + (ENCS[ei].intrinsic ? "" : "(icu)"); }
 
 // =================================================================================================
 // space enc: every scalar value through transcodeTo / canTranscodeTo of every encoding
@@ -892,7 +761,7 @@ static void run_split(uint64_t idx, Ctx& c) {
             pos += r.eaten; mm = m;
         }
         delete t;
-        if (err.empty() && !E.intrinsic && m == 1 && got.size() + 1 == units.size() && units.compare(0, got.size(), got) == 0 && units.back() >= 0xDC00 && units.back() <= 0xDFFF) {
+        if (err.empty() && !E.intrinsic && got.size() + 1 == units.size() && units.compare(0, got.size(), got) == 0 && units.back() >= 0xDC00 && units.back() <= 0xDFFF) {
             known_or_violation(c, "icu-decode-pair-overflow-lost", where + ",\"split\":" + std::to_string(s)); continue;
         }
         if (err.empty() && got != units) err = "decoded [" + hex16(got) + "] expected [" + hex16(units) + "]";
@@ -964,11 +833,177 @@ static void setup_split(const Args& a, Runner& R) {
 }
 
 // =================================================================================================
+// space witness: one minimal, strictly judged case per KNOWN_DEFECTS entry (exact-size buffers, no padding)
+// =================================================================================================
+static const char* WITNESS[] = {"ucs4-out-of-range-decoded", "ucs4-surrogate-decoded", "ucs4-swapped-supplementary-not-swapped", "table-fallback-mapping",
+                                "table-cantranscodeto-truncates", "table-nul-unrepresentable", "ibm1047-nl-decodes-to-lf", "icu-cantranscodeto-supplementary",
+                                "icu-default-ignorable-dropped", "icu-illegal-input-substituted", "icu-truncated-input-swallowed", "icu-encode-overflow-lost",
+                                "icu-decode-pair-overflow-lost", "icu-unrepresentable-overread"};
+static const int NWITNESS = sizeof(WITNESS) / sizeof(WITNESS[0]);
+static int g_witness_base = 0;   // space "overread" runs only the last witness (it aborts under ASan and must not share a worker with others)
+static void run_witness(uint64_t idx, Ctx& c) {
+    std::string id = WITNESS[idx + g_witness_base];
+    g_src_pad_units = 0;
+    auto bad = [&](const std::string& repro, const std::string& expected, const std::string& observed) {
+        c.violation(id.c_str(), "\"repro\":" + jstr(repro) + ",\"expected\":" + jstr(expected) + ",\"observed\":" + jstr(observed));
+        if (c.verbose) printf("witness %s\n  repro: %s\n  expected: %s\n  observed: %s\n", id.c_str(), repro.c_str(), expected.c_str(), observed.c_str());
+    };
+    auto fixed = [&]() { c.count("witness_behaves_correctly:" + id); };
+    auto show = [](const FromRes& r) { return r.threw ? "exception " + r.exc : "units [" + hex16(r.out) + "] bytesEaten=" + std::to_string(r.eaten); };
+    auto showt = [](const ToRes& r) { return r.threw ? "exception " + r.exc : "bytes " + hexs(r.out) + " charsEaten=" + std::to_string(r.eaten); };
+    if (id == "ucs4-out-of-range-decoded") {
+        XMLTranscoder* t = make_tc("UCS-4LE");
+        uint8_t a[4] = {0x00, 0x00, 0x11, 0x00}, b[4] = {0x00, 0x00, 0x01, 0x04};
+        FromRes r = x_from(t, a, 4, 4), r2 = x_from(t, b, 4, 4);
+        if (!r.threw || !r2.threw) bad("makeNewTranscoderFor(\"UCS-4LE\")->transcodeFrom(bytes 00 00 11 00 [=0x00110000]) and (bytes 00 00 01 04 [=0x04010000])", "TranscodingException for both (values > 0x10FFFF are not Unicode)", show(r) + " ; " + show(r2) + " (the second is U+10000)");
+        else fixed();
+        delete t;
+    } else if (id == "ucs4-surrogate-decoded") {
+        XMLTranscoder* t = make_tc("UCS-4BE");
+        uint8_t a[8] = {0, 0, 0xD8, 0x00, 0, 0, 0xDC, 0x00};
+        FromRes r = x_from(t, a, 8, 4);
+        if (!r.threw) bad("makeNewTranscoderFor(\"UCS-4BE\")->transcodeFrom(bytes 00 00 D8 00 00 00 DC 00)", "TranscodingException (surrogate code points are not legal UCS-4/UTF-32 values)", show(r) + " (a well-formed pair = U+10000)");
+        else fixed();
+        delete t;
+    } else if (id == "ucs4-swapped-supplementary-not-swapped") {
+        XMLTranscoder* t = make_tc("UCS-4BE");
+        uint16_t u[2] = {0xD800, 0xDC00};
+        ToRes r = x_to(t, u, 2, 8);
+        if (r.threw || r.out != Bytes("\x00\x01\x00\x00", 4)) bad("makeNewTranscoderFor(\"UCS-4BE\")->transcodeTo(D800 DC00 [U+10000])", "bytes 00010000", showt(r));
+        else fixed();
+        delete t;
+    } else if (id == "table-fallback-mapping") {
+        XMLTranscoder* t = make_tc("WINDOWS-1252");
+        uint16_t u[1] = {0xFF1C};
+        ToRes r = x_to(t, u, 1, 4);
+        bool can = t->canTranscodeTo(0xFF1C);
+        if (!r.threw || can) bad("makeNewTranscoderFor(\"WINDOWS-1252\"): canTranscodeTo(0xFF1C) and transcodeTo(U+FF1C FULLWIDTH LESS-THAN SIGN, UnRep_Throw); same for IBM037/IBM1047/IBM1140 and all of U+FF01..U+FF5E", "canTranscodeTo=false and TranscodingException(Trans_Unrepresentable): windows-1252 has no U+FF1C", std::string("canTranscodeTo=") + (can ? "true" : "false") + ", " + showt(r) + " (an ASCII '<')");
+        else fixed();
+        delete t;
+    } else if (id == "table-cantranscodeto-truncates") {
+        XMLTranscoder* t = make_tc("IBM1140");
+        bool can = t->canTranscodeTo(0x10041);
+        if (can) bad("makeNewTranscoderFor(\"IBM1140\")->canTranscodeTo(0x10041)", "false", "true (0x10041 truncated to XMLCh 0x0041)");
+        else fixed();
+        delete t;
+    } else if (id == "table-nul-unrepresentable") {
+        XMLTranscoder* t = make_tc("WINDOWS-1252");
+        uint16_t u[1] = {0};
+        ToRes r = x_to(t, u, 1, 4);
+        bool can = t->canTranscodeTo(0);
+        if (!can || r.threw) bad("makeNewTranscoderFor(\"WINDOWS-1252\"): canTranscodeTo(0), transcodeTo(U+0000)", "true, byte 00", std::string(can ? "true" : "false") + ", " + showt(r));
+        else fixed();
+        delete t;
+    } else if (id == "ibm1047-nl-decodes-to-lf") {
+        XMLTranscoder* t = make_tc("IBM1047");
+        uint8_t a[1] = {0x15}; uint16_t u[1] = {0x85};
+        FromRes r = x_from(t, a, 1, 2); ToRes e = x_to(t, u, 1, 2);
+        if (r.threw || r.out != U16(1, 0x85)) bad("makeNewTranscoderFor(\"IBM1047\")->transcodeFrom(byte 15); ->transcodeTo(U+0085)", "U+0085 (IBM/ICU ibm-1047, and the inverse of this transcoder's own transcodeTo)", show(r) + " ; transcodeTo(U+0085) = " + showt(e));
+        else fixed();
+        delete t;
+    } else if (id == "icu-cantranscodeto-supplementary") {
+        XMLTranscoder* t = make_tc("GB18030");
+        uint16_t u[2] = {0xDBC0, 0xDC00};
+        ToRes r = x_to(t, u, 2, 8);
+        bool can = t->canTranscodeTo(0x100000), can2 = t->canTranscodeTo(0x10000);
+        if (!can) bad("makeNewTranscoderFor(\"GB18030\") [ICU]: canTranscodeTo(0x100000) vs transcodeTo(DBC0 DC00)", "true (GB18030 encodes every scalar value; transcodeTo gives " + showt(r) + ")", std::string("false; canTranscodeTo(0x10000)=") + (can2 ? "true" : "false") + " is really a test of U+20000");
+        else fixed();
+        delete t;
+    } else if (id == "icu-default-ignorable-dropped") {
+        XMLTranscoder* t = make_tc("ISO-8859-2");
+        g_src_pad_units = 1;  // keep the other ICU defect (over-read) out of this witness
+        uint16_t u[3] = {0x61, 0x200B, 0x62};
+        ToRes r = x_to(t, u, 3, 8);
+        bool can = t->canTranscodeTo(0x200B);
+        g_src_pad_units = 0;
+        if (!r.threw || can) bad("makeNewTranscoderFor(\"ISO-8859-2\") [ICU]: canTranscodeTo(0x200B); transcodeTo('a' U+200B 'b', UnRep_Throw)", "false; TranscodingException(Trans_Unrepresentable)", std::string(can ? "true" : "false") + "; " + showt(r) + " (the ZERO WIDTH SPACE vanished)");
+        else fixed();
+        delete t;
+    } else if (id == "icu-illegal-input-substituted") {
+        XMLTranscoder* t = make_tc("Shift_JIS");
+        uint8_t a[3] = {0x41, 0xA0, 0x42};
+        FromRes r = x_from(t, a, 3, 8);
+        XMLTranscoder* t2 = make_tc("EUC-JP");
+        uint8_t b[3] = {0xA1, 0x20, 0x42};
+        FromRes r2 = x_from(t2, b, 3, 8);
+        if (!r.threw || !r2.threw) bad("makeNewTranscoderFor(\"Shift_JIS\") [ICU]->transcodeFrom(41 A0 42); makeNewTranscoderFor(\"EUC-JP\")->transcodeFrom(A1 20 42)", "TranscodingException for both (A0 is unassigned in Shift_JIS; A1 20 is an illegal EUC-JP sequence)", show(r) + " ; " + show(r2));
+        else fixed();
+        delete t; delete t2;
+    } else if (id == "icu-truncated-input-swallowed") {
+        uint8_t* a = g_src.get(2); a[0] = 0x41; a[1] = 0x88;
+        bool threw = false; U16 got;
+        try { TranscodeFromStr tf(a, 2, "Shift_JIS"); got.assign((const uint16_t*)tf.str(), tf.length()); } catch (const XMLException&) { threw = true; }
+        if (!threw) bad("TranscodeFromStr(bytes 41 88, 2, \"Shift_JIS\") - 88 is a lead byte without trail byte", "TranscodingException(Trans_BadSrcSeq), as for UTF-8 input 41 E2", "no exception, result [" + hex16(got) + "]");
+        else fixed();
+    } else if (id == "icu-encode-overflow-lost") {
+        uint16_t* u = (uint16_t*)g_src.get(8); u[0] = u[1] = u[2] = 0x80; u[3] = 0;
+        bool threw = false; Bytes got; std::string exc;
+        try { TranscodeToStr tt((const XMLCh*)u, 3, "GB18030"); got.assign((const char*)tt.str(), tt.length()); } catch (const XMLException& e) { threw = true; exc = exc_name(e); }
+        Bytes want; U16 w(3, 0x80); ref_encode_units(enc_index("GB18030"), w, want);
+        if (threw || got != want) bad("TranscodeToStr(u\"\\u0080\\u0080\\u0080\", 3, \"GB18030\")", "bytes " + hexs(want), threw ? "exception " + exc : "bytes " + hexs(got) + " (last character cut: its tail stayed in ICU's overflow buffer)");
+        else fixed();
+    } else if (id == "icu-decode-pair-overflow-lost") {
+        XMLTranscoder* t = make_tc("GB18030");
+        uint8_t a[4] = {0x90, 0x30, 0x81, 0x30};
+        FromRes r = x_from(t, a, 4, 1);
+        if (r.threw || !(r.out.empty() && r.eaten == 0)) bad("makeNewTranscoderFor(\"GB18030\") [ICU]->transcodeFrom(90 30 81 30 [U+10000], maxChars=1)", "0 chars, bytesEaten=0 (as the intrinsic transcoders do when a pair does not fit)", show(r) + " (low surrogate kept inside the converter)");
+        else fixed();
+        delete t;
+    } else if (id == "icu-unrepresentable-overread") {
+        XMLTranscoder* t = make_tc("ISO-8859-2");
+        uint16_t u[1] = {0x20AC};
+        ToRes r = x_to(t, u, 1, 4);   // exact 2-byte heap source: ASan aborts inside ICUTranscoder::transcodeTo (reported by the runner as kind "crash")
+        if (!r.threw) bad("transcodeTo(U+20AC) ISO-8859-2", "Trans_Unrepresentable", showt(r));
+        else c.count("witness_no_sanitizer_report:" + id);
+        delete t;
+    }
+}
+static void setup_witness(const Args& a, Runner& R) {
+    select_encs(a);
+    if (a.str("space") == "overread") { g_witness_base = NWITNESS - 1; R.total = 1; }
+    else R.total = NWITNESS - 1;
+    R.fn = run_witness;
+    R.describe = [](uint64_t i) { return "{\"witness\":" + jstr(WITNESS[i + g_witness_base]) + ",\"repro\":\"makeNewTranscoderFor(\\\"ISO-8859-2\\\")->transcodeTo(src = exactly one XMLCh U+20AC on the heap, srcCount=1, UnRep_Throw)\"}"; };
+}
+
+// =================================================================================================
 int main(int argc, char** argv) {
     Args a(argc, argv);
     std::string space = a.str("space", "utf8dec");
     g_strict = a.num("strict", 0) != 0;
     XMLPlatformUtils::Initialize();
+    if (space == "dumptables") {
+        // raw observations for the python-side codecs comparison (xv/c05.py run_pycodecs): what Xerces decodes every byte to and which
+        // byte it encodes every BMP code point to, for the intrinsic single-byte transcoders
+        FILE* f = fopen(a.str("dump", "/dev/stdout").c_str(), "w");
+        if (!f) return 2;
+        fprintf(f, "{\"tables\":{");
+        bool first = true;
+        for (int ei = 0; ei < NENC; ei++) {
+            if (!ENCS[ei].intrinsic || ENCS[ei].maxlen != 1) continue;
+            XMLTranscoder* t = make_tc(ENCS[ei].xname);
+            fprintf(f, "%s\"%s\":{\"decode\":[", first ? "" : ",", ENCS[ei].xname); first = false;
+            for (int b = 0; b < 256; b++) {
+                uint8_t s1[1] = {(uint8_t)b};
+                FromRes r = x_from(t, s1, 1, 1);
+                fprintf(f, "%s%d", b ? "," : "", (r.threw || r.out.size() != 1) ? -1 : (int)r.out[0]);
+            }
+            fprintf(f, "],\"encode\":{");
+            bool f2 = true;
+            for (uint32_t cp = 0; cp < 0x10000; cp++) {
+                if (is_surrogate(cp) || !t->canTranscodeTo(cp)) continue;
+                uint16_t u[1] = {(uint16_t)cp};
+                ToRes r = x_to(t, u, 1, 2);
+                if (r.threw || r.out.size() != 1) { fprintf(f, "%s\"%u\":-1", f2 ? "" : ",", cp); f2 = false; continue; }
+                fprintf(f, "%s\"%u\":%d", f2 ? "" : ",", cp, (int)(uint8_t)r.out[0]); f2 = false;
+            }
+            fprintf(f, "}}");
+            delete t;
+        }
+        fprintf(f, "}}\n");
+        fclose(f);
+        return 0;
+    }
     Runner R;
     R.name = space;
     if (space == "utf8dec") setup_utf8dec(a, R);
@@ -978,6 +1013,7 @@ int main(int argc, char** argv) {
     else if (space == "sbcs") setup_sbcs(a, R);
     else if (space == "mbcs") setup_mbcs(a, R);
     else if (space == "split") setup_split(a, R);
+    else if (space == "witness" || space == "overread") setup_witness(a, R);
     else { fprintf(stderr, "unknown space %s\n", space.c_str()); return 2; }
     return R.main_tail(a);
 }
